@@ -692,6 +692,8 @@ class World(object):
             return run
         if op == "GetRecord":
             ident = self.name(a["id"])
+            if a["id"]["rep"] == "uri" and self.salt % 2:
+                ident = Identifier(ident)        # the full URI as an Identifier object instead of a string
 
             def run():
                 got = c.get_record(ident)
